@@ -38,10 +38,17 @@ pub fn shape_edges(shape: i64) -> (Vec<u32>, Vec<(u32, u32)>) {
         14 => (vec![18, 10, 17, 11, 16, 12, 15, 13, 14], vec![(10, 11), (11, 12), (12, 10), (13, 14), (14, 15), (16, 16)]),
         15 => ((20..42).rev().collect(), vec![]),
         16 => ((20..42).collect(), vec![(20, 21), (30, 30)]),
-        _ => ((20..43).collect(), (20..42).map(|i| (i, i + 1)).collect()),
+        17 => ((20..43).collect(), (20..42).map(|i| (i, i + 1)).collect()),
+        // above the rayon threshold with nodes that have no out-edges / no in-edges at all (directed kinds): an out-star
+        // (22 sinks), an in-star (22 sources), two hubs over 20 common sinks (squares), a cycle with pendant sinks and an
+        // isolated node
+        18 => ((20..43).collect(), (21..43).map(|i| (20, i)).collect()),
+        19 => ((20..43).rev().collect(), (21..43).map(|i| (i, 20)).collect()),
+        20 => ((20..42).collect(), (22..42).flat_map(|i| vec![(20, i), (21, i)]).collect()),
+        _ => ((20..48).collect(), (20..45).map(|i| (i, if i == 44 { 20 } else { i + 1 })).chain(vec![(20, 45), (20, 46), (30, 46)]).collect()),
     }
 }
-pub const NUM_SHAPES: i64 = 18;
+pub const NUM_SHAPES: i64 = 22;
 
 pub fn case(kind: i64, shape: i64, wmode: i64, dedupe: u8) -> GraphCase {
     let specs = Specs { directed: kind & 1 != 0, multi: kind & 2 != 0, self_loops: kind & 4 != 0, dedupe, missing: 0, slfalse: 1 };
